@@ -111,7 +111,11 @@ def rule_copy_store(ctx: RuleContext, p: Program, rid: str) -> None:
     mt = p.cls('MappingTokenTransformer', 'models.base')
     tf = p.method(mt, 'transform', inherited=False)
     e = single_return_expr(tf)
-    ok = e is not None and 'self._map[id(' in norm(e)
+    # the attribute that __init__ fills from its mapping parameter, whatever it is called
+    init = p.try_method(mt, '__init__', inherited=False)
+    map_attrs = {self_attr(a.targets[0]) for a in (walk_no_nested(init.node) if init else []) if isinstance(a, ast.Assign)
+                 and len(a.targets) == 1 and self_attr(a.targets[0]) and isinstance(a.value, ast.Name) and a.value.id in init.params[1:]}
+    ok = e is not None and any(f'self.{m}[id({tf.params[1]})]' in norm(e) for m in map_attrs if m)
     ctx.check(ok, rid, 'models.base:MappingTokenTransformer.transform', norm(e) if e else '',
               'MappingTokenTransformer.transform does not return the mapped copy', tf.where, note=norm(e) if e else '')
     # no tree model overrides __deepcopy__
